@@ -9,6 +9,7 @@ the property statement only.
 """
 import collections
 import hashlib
+import json
 import queue
 import random
 import threading
@@ -63,6 +64,7 @@ ASSUMPTIONS = [
 ]
 MIN_NONTRIVIAL = 20000
 REQUIRED_COUNTERS = {
+    'webhook_job_events_after_a_history': 5000,   # webhook-layer companion
     'accepted_checked': 50000,         # the deciding comparison ran
     'suppressed_while_equal_pending': 10000,
     'finished_jobs_checked': 50000,
@@ -778,11 +780,110 @@ def _pin(shard):
         pass
 
 
+# ---------------------------------------------------------------------------
+# webhook layer: acceptance must not depend on what the server has seen before
+def run_webhook_layer(spec, acc):
+    """Sequential companion in front of put_job (own shard, no scheduler):
+    the real Flask routes, the real BertE.put_job, the real build-status
+    cache (harness of the C17 check: scripted bitbucket / github hosts).
+
+    Reference: every distinct status event (2 commits x 2 keys x 4 states)
+    delivered to a FRESH server either queues a job or is ignored (an
+    in-progress build).  Then histories of <= 4 operations over {webhook,
+    poll by a job}: whenever the queue is EMPTY, an event that a fresh server
+    turns into a job must be turned into a job - whatever was delivered,
+    polled, cached or processed before (the statement allows suppression only
+    while an equal job is waiting)."""
+    import itertools
+    import logging
+    logging.disable(logging.CRITICAL)
+    from vf.checks import c17
+    tier, seed = spec['tier'], spec['seed']
+    depth = 4 if tier == 'thorough' else 3
+    for host in ('bitbucket', 'github'):
+        if spec.get('host') not in (None, host):
+            continue
+        h = c17.Harness(host)
+        q = h.bert_e.task_queue.queue
+
+        def deliver(c, k, s):
+            sha, key = c17.COMMITS[c], h.keys[k]
+            h.set_world(sha, key, s)
+            route, headers, body = h.webhook_request(sha, key, s)
+            code = h.http.post(route, data=json.dumps(body).encode(),
+                               headers=headers).status_code
+            jobs = [type(j).__name__ + ':' + str(
+                getattr(j, 'commit', None) or getattr(
+                    getattr(j, 'pull_request', None), 'id', None))
+                for j in list(q)]
+            q.clear()
+            return code, jobs
+        events = [(c, k, st) for c in (0, 1) for k in (0, 1)
+                  for st in c17.WEBHOOK_STATES]
+        fresh = {}
+        for ev in events:
+            h.reset(1000)
+            q.clear()
+            fresh[ev] = deliver(*ev)
+        acc.count('webhook_fresh_reference_events', len(fresh))
+        acc.seen('webhook_fresh_outcomes', sorted(
+            '%s:%s->%s' % (host, ev[2], 'job' if fresh[ev][1] else 'ignored')
+            for ev in events))
+        ops = [('w',) + ev for ev in events] + \
+              [('p', c, k, st) for c in (0, 1) for k in (0, 1)
+               for st in c17.POLL_STATES]
+        rng = random.Random('c13-webhooks-%s-%s' % (seed, host))
+        if depth == 3:
+            hists = itertools.product(ops, repeat=3)
+        else:
+            hists = (tuple(rng.choice(ops) for _ in range(4))
+                     for _ in range(60000))
+        for hist in hists:
+            if hist[-1][0] != 'w':
+                continue
+            h.reset(1000)
+            q.clear()
+            for i, op in enumerate(hist):
+                if op[0] == 'p':
+                    h.poll(*op[1:])
+                    continue
+                code, jobs = deliver(*op[1:])
+                want = fresh[op[1:]]
+                acc.evals += 1
+                acc.count('webhook_deliveries_compared_with_a_fresh_server')
+                if want[1] and i:
+                    acc.count('webhook_job_events_after_a_history')
+                    acc.nontrivial_disjoint += 1
+                if (code, jobs) != want:
+                    lost = want[1] and not jobs
+                    acc.violation(
+                        'accepted-webhook-dropped-because-of-earlier-events'
+                        if lost else
+                        'webhook-outcome-depends-on-earlier-events',
+                        'host=%s after %r the event %r -> HTTP %s, jobs %s; '
+                        'a fresh server answers HTTP %s, jobs %s' % (
+                            host, hist[:i], op, code, jobs, want[0],
+                            want[1]),
+                        {'part': 'webhooks', 'host': host,
+                         'history': [list(o) for o in hist[:i + 1]]})
+    acc.exhaustive['webhook layer: histories of %d operations over 16 status '
+                   'events + 16 polls, host %s' % (
+                       depth, spec.get('host') or 'bitbucket, github')] = \
+        depth == 3
+    acc.count('shards_run')
+
+
 def plan(tier, seed):
-    return [{} for _ in range(16)]
+    # the 16 scheduler shards split their work modulo 16; the webhook-layer
+    # companion runs in two more processes (one per host flavour)
+    return [{'nshards': 16} for _ in range(16)] + [
+        {'part': 'webhooks', 'host': 'bitbucket'},
+        {'part': 'webhooks', 'host': 'github'}]
 
 
 def run_shard(spec, acc):
+    if spec.get('part') == 'webhooks':
+        return run_webhook_layer(spec, acc)
     env = Env.get()
     tier, shard, n, seed = spec['tier'], spec['shard'], spec['nshards'], \
         spec['seed']
@@ -846,6 +947,8 @@ def run_shard(spec, acc):
 
 
 def replay(w, acc):
+    if w.get('part') == 'webhooks':
+        return run_webhook_layer({'tier': 'quick', 'seed': 1}, acc)
     env = Env.get()
     strat = S.Forced(w['choices'])
     res = run_one(env, w['cfg'], strat, acc, 'replay')
